@@ -9,7 +9,9 @@ no-op / vetoed commands, failed writes, reads, snapshots at any point, through a
 object, and store objects being thrown away and re-created (`restart` = cache drop).
 -/
 import KrillModel.ES.Lemmas
+import KrillModel.ES.WalLemmas
 import KrillModel.ES.Reg
+import KrillModel.ES.Bag
 namespace KM.Props.C06
 open KM.ES
 
@@ -175,4 +177,68 @@ example :
     (match loadScratch (command e 0 ⟨"u", ()⟩).1 with | .ok v => v.version | _ => 0) = 1 := by
   decide
 
-end KM.Props.C06
+/-! ## The write-ahead-log store -/
+
+section WalStore
+open KM.ES.Wal
+variable {T : WalT}
+
+/-- **wal_replay_eq_live.**  After every history of the WAL store (creation, accepted / failing /
+no-op commands, failed writes, reads, snapshot+truncate at any point, through any store
+object, store objects re-created) – with `add` used only for an entity that does not exist
+and snapshots taken while the other store objects are up to date (`SafeRun`; that is how krill
+uses it) – what a fresh store builds from `snapshot.json` plus the `wal-N.json` files equals
+what every live store object returns. -/
+theorem wal_replay_eq_live (ops : List (Wal.Op T)) (hs : SafeRun ({} : Wal.Ent T) ops) (i : Nat) :
+    let e := Wal.run ({} : Wal.Ent T) ops
+    Wal.loadFresh e = (Wal.getLatest e i).2 := by
+  intro e
+  have h : WState e := run_preserves (Or.inl absent_empty) ops hs
+  rcases h with ha | ⟨cur, hc⟩
+  · have ha' : Absent { e with cache := [] } := ⟨ha.1, ha.2.1, fun _ => rfl⟩
+    simp [Wal.loadFresh, Wal.getLatest, execOpt_absent ha, execOpt_absent ha']
+  · simp [Wal.loadFresh, Wal.getLatest, (execOpt_get hc i).1, (execOpt_get hc.clearCache 0).1]
+
+/-- The live value is reached from the stored snapshot through the stored change sets, and
+no change set is left over beyond it (nothing to replay twice, nothing lost). -/
+theorem wal_live_is_snapshot_plus_sets (ops : List (Wal.Op T)) (hs : SafeRun ({} : Wal.Ent T) ops)
+    (i : Nat) (v : WVer T) (h : (Wal.getLatest (Wal.run ({} : Wal.Ent T) ops) i).2 = .ok v) :
+    ∃ s, (Wal.run ({} : Wal.Ent T) ops).kv.snapshot = some s ∧
+      Reaches (Wal.run ({} : Wal.Ent T) ops).kv s v ∧
+      ∀ k, v.revision ≤ k → (Wal.run ({} : Wal.Ent T) ops).kv.getWal k = none := by
+  have hw : WState (Wal.run ({} : Wal.Ent T) ops) := run_preserves (Or.inl absent_empty) ops hs
+  rcases hw with ha | ⟨cur, hc⟩
+  · simp [Wal.getLatest, execOpt_absent ha] at h
+  · have := (execOpt_get hc i).1
+    simp only [Wal.getLatest] at h
+    rw [this] at h
+    cases h
+    obtain ⟨s, hs1, hs2⟩ := hc.snap
+    exact ⟨s, hs1, hs2, hc.above⟩
+
+/-- Non-vacuity of `SafeRun`: a history with a snapshot in the middle taken by a second store
+object while the writer is current. -/
+example : SafeRun ({} : Wal.Ent Bag.bagT)
+    [.add 0 ⟨0, []⟩ false, .cmd 0 (.put 5) false, .snap 1 false, .cmd 0 (.del 5) false, .get 1] := by
+  refine ⟨absent_empty, trivial, ?_, trivial, trivial, trivial⟩
+  have hcache : (Wal.step (Wal.step ({} : Wal.Ent Bag.bagT) (.add 0 ⟨0, []⟩ false)).1
+      (.cmd 0 (.put 5) false)).1.cache = [(0, ⟨1, [5]⟩)] := rfl
+  intro j c hj hc
+  rw [hcache] at hc
+  simp only [alookup_cons, alookup_nil] at hc
+  split at hc
+  · cases hc; rfl
+  · cases hc
+
+/-- The hypothesis is needed (modelled quirk, confirmed on the real `WalStore`): store object 0
+caches revision 0, store object 1 adds a change set, snapshots (which deletes `wal-0`) –
+object 0 can never catch up and keeps returning revision 0 while a fresh store sees
+revision 1. -/
+theorem wal_snapshot_needs_current_caches :
+    let e := Wal.run ({} : Wal.Ent Bag.bagT)
+      [.add 0 ⟨0, []⟩ false, .cmd 1 (.put 5) false, .snap 1 false]
+    (match (Wal.getLatest e 0).2 with | .ok v => some (v.revision, v.st) | _ => none) = some (0, []) ∧
+    (match Wal.loadFresh e with | .ok v => some (v.revision, v.st) | _ => none) = some (1, [5]) := by
+  decide
+
+end WalStore
